@@ -161,6 +161,9 @@ func cmdCheck(args []string) int {
 		// obligations that were already undecided on the unchanged tree are not claimed: no model search for them
 		tier.Skip = func(o *Obligation) bool { return baseUndecided[o.Name] && !contractKinds[o.Kind] }
 	}
+	if *writeBaseline {
+		tier.NoModels = true
+	}
 	discharge(run.Results, tier)
 	var cwg sync.WaitGroup
 	for _, r := range run.Results {
@@ -186,6 +189,11 @@ func cmdCheck(args []string) int {
 	solverWins := map[string]int{}
 	var solverSecs float64
 	var vacuous []string
+	type failRec struct {
+		r *FnResult
+		o *Obligation
+	}
+	var failing []failRec
 	for _, r := range run.Results {
 		solverSecs += r.SolverSecs
 		if r.frame != nil && len(r.Obls) > 0 && !r.CoverOK && r.CoverAnswer != "no-return" {
@@ -238,22 +246,38 @@ func cmdCheck(args []string) int {
 				continue
 			}
 			claimed++
-			// claimed obligation not discharged: retry before reporting
 			if !*writeBaseline {
-				if retryObligation(r, o, tier) {
-					discharged++
-					continue
-				}
-				rp := writeReplay(e, run, r, o)
-				line := fmt.Sprintf("VIOLATION property=%s replay=%s", id, rp.Path)
-				if !rp.Confirmed {
-					line += " no-failing-input-found"
-				}
-				violations = append(violations, line)
-				fmt.Printf("%s\n   obligation %s [%s] at %s\n", line, o.Name, o.Answer, o.Pos)
+				failing = append(failing, failRec{r, o})
 			} else if *verbose {
 				fmt.Printf("NOT-DISCHARGED %s %s [%s] %s\n", o.Kind, o.Name, o.Answer, o.Pos)
 			}
+		}
+	}
+	// claimed obligations that were not discharged: retry (all solvers, longer timeout, other seeds) concurrently
+	if len(failing) > 0 {
+		var rwg sync.WaitGroup
+		okc := make([]bool, len(failing))
+		for i := range failing {
+			i := i
+			rwg.Add(1)
+			go func() {
+				defer rwg.Done()
+				okc[i] = retryObligation(failing[i].r, failing[i].o, tier)
+			}()
+		}
+		rwg.Wait()
+		for i, f := range failing {
+			if okc[i] {
+				discharged++
+				continue
+			}
+			rp := writeReplay(e, run, f.r, f.o)
+			line := fmt.Sprintf("VIOLATION property=%s replay=%s", id, rp.Path)
+			if !rp.Confirmed {
+				line += " no-failing-input-found"
+			}
+			violations = append(violations, line)
+			fmt.Printf("%s\n   obligation %s [%s] at %s\n", line, f.o.Name, f.o.Answer, f.o.Pos)
 		}
 	}
 	for _, v := range vacuous {
@@ -264,6 +288,16 @@ func cmdCheck(args []string) int {
 		line := fmt.Sprintf("VIOLATION property=%s replay=%s no-failing-input-found", id, rp)
 		violations = append(violations, line)
 		fmt.Println(line)
+	}
+	if os.Getenv("GOVC_TRACE") != "" {
+		rs2 := append([]*FnResult(nil), run.Results...)
+		sort.Slice(rs2, func(i, j int) bool { return rs2[i].SolverSecs > rs2[j].SolverSecs })
+		for i, r := range rs2 {
+			if i >= 25 {
+				break
+			}
+			fmt.Fprintf(os.Stderr, "solver %-60s %7.1fs obls=%d bg=%dKB\n", r.Fn, r.SolverSecs, len(r.Obls), len(r.Background)/1024)
+		}
 	}
 	var gone []string
 	for o := range base {
@@ -362,9 +396,13 @@ func retryObligation(r *FnResult, o *Obligation, tier Tier) bool {
 	if r.query == nil {
 		return false
 	}
-	for s := 1; s <= 3; s++ {
+	rounds, to := 1, 25
+	if tier.Name == "thorough" {
+		rounds, to = 3, 60
+	}
+	for s := 1; s <= rounds; s++ {
 		solverSem <- struct{}{}
-		sr := solve(obQuery(r, o), 60, tier.Seed+s*7919, false)
+		sr := solve(obQuery(r, o), to, tier.Seed+s*7919, false)
 		<-solverSem
 		if sr.Answer == "unsat" {
 			o.Answer = "unsat"
